@@ -261,6 +261,36 @@ def check(ctx):
     ctx.ob("C13.R2", tf, "the new value is outcomes[categorical(key, logits = vmap("
                          "conditional log-prob)(outcomes))], returned under the variable's "
                          "name", ok_d, detail=short(rtt or (), 200), stmt="categorical draw")
+    # ---- provenance of the outcome grid: the user's values unchanged, or the support
+    # of the variable's own distribution
+    dist_t = ("call", ("a", ("a", ("s", ("a", n("model"), "vars"), n("name")), "dist_node"),
+                       "init_dist"), (), ())
+    user_ok, default_ok, arms_seen = False, False, []
+    ot = outcomes_t
+    if ot is not None and ot[0] == "phi" and ot[1] == ("cmp", "is", n("outcomes"), c(None)):
+        dflt, user = ot[2], ot[3]
+        user_ok = user == n("outcomes") or (
+            user[0] == "call" and (fn_name(user[1]) or "") in (
+                "jax.numpy.asarray", "jax.numpy.array", "jax.numpy.atleast_1d")
+            and user[2] == (n("outcomes"),) and not user[3])
+
+        def leaves(t):
+            if t[0] == "phi" and t[1][:1] == ("case?",):
+                return leaves(t[2]) + leaves(t[3])
+            return [t]
+        arms_seen = leaves(dflt)
+        bern = [a for a in arms_seen if a[0] == "call" and (fn_name(a[1]) or "") in (
+            "jax.numpy.array", "jax.numpy.asarray") and a[2] == (("list", (c(0), c(1))),)
+            and all(k == "dtype" and v == ("a", dist_t, "dtype") for k, v in a[3])]
+        fin = [a for a in arms_seen if a == ("a", dist_t, "outcomes")]
+        default_ok = len(bern) == 1 and len(fin) == 1 and len(arms_seen) == 2
+    ctx.ob("C13.R2", fd, "user-supplied outcomes are used as given (array conversion only: "
+                         "no cast, rounding or reordering)", user_ok,
+           detail=short(ot or (), 200), stmt="user outcomes " + pretty(ot[3] if ot and ot[0] == "phi" else ())[:100])
+    ctx.ob("C13.R2", fd, "without user outcomes the grid is the support of the variable's "
+                         "own distribution: {0, 1} for Bernoulli, dist.outcomes for "
+                         "FiniteDiscrete", default_ok,
+           detail="; ".join(short(a, 80) for a in arms_seen), stmt="default outcomes")
     gk = rfd.ret()
     ctx.ob("C13.R2", fd, "registered for exactly the variable's name",
            gk is not None and is_call(gk, "liesel.goose.gibbs.GibbsKernel")
